@@ -42,7 +42,9 @@ func c9BuildH265(par int, ra bool, pay, fill int) [][]byte {
 		}
 		au = append(au, append([]byte{typ << 1, 0x01}, idBytes(pay, fill)...))
 	} else {
-		au = append(au, append([]byte{1 << 1, 0x01}, idBytes(pay, fill)...))
+		// non-IRAP pictures of every kind: TRAIL_R mostly, TRAIL_N, RASL_R, RADL_R, TSA_R, STSA_R, RASL_N, RADL_N
+		typ := []byte{1, 1, 1, 0, 9, 7, 3, 5, 1, 8, 6, 1}[pay%12]
+		au = append(au, append([]byte{typ << 1, 0x01}, idBytes(pay, fill)...))
 	}
 	return au
 }
